@@ -390,11 +390,27 @@ def header_signature(ctx, P, f):
     # master address: multi-def local assigned None / Some(pdu[3]) under pdu[3] == 255
     S = (g_h if guard_site is not None else g).at(c["b"], c["i"])
     ma = set()
-    for fs in S:
+    mterm = strip_refs(vals["master_address"])  # the value stored as master address, whatever the local is called
+    if mterm[0] == "call" and mterm[1].endswith("Option::<T>::filter") and len(mterm[2]) == 2:
+        # `Some(pdu[3]).filter(|&m| m != 255)`: None iff the byte is 255
+        src, clo = strip_refs(mterm[2][0]), strip_refs(mterm[2][1])
+        cf = P.get(CR, clo[1][len("closure:"):]) if clo[0] == "agg" and str(clo[1]).startswith("closure:") else None
+        if src[0] == "agg" and src[2] == "Some" and norm(src[3][0]).endswith("pdu[3]") and cf is not None:
+            from analysis.guards import canon_bool
+            from analysis.query import return_terms
+            ctb = TermBuilder(cf, P)
+            rts = return_terms(cf, ctb)
+            if len(rts) == 1:
+                k_, v_ = canon_bool(rts[0][2], True)
+                if k_[0] == "cmp" and k_[1] == "eq" and ("const", DG["no_master"]) in (k_[2], k_[3]) and v_ == ("in", frozenset([False])):
+                    other = k_[3] if k_[2] == ("const", DG["no_master"]) else k_[2]
+                    if all(l[0] == "arg" for l in [x for x in subterms(other) if isinstance(x, tuple) and x and x[0] in ("arg", "local", "upvar", "env")]):
+                        ma = {(("None",), ("pdu[3]", (True,))), (("Some",), ("pdu[3]", (False,)))}
+    for fs in (S if not ma else ()):
         d = None
         cmpv = None
         for k, vs in fs.items():
-            if k[0] == "discr" and "master_address" in show(k[1]):
+            if k[0] == "discr" and (strip_refs(k[1]) == mterm or "master_address" in show(k[1])):
                 d = tuple(sorted(vs[1]))
             if k[0] == "cmp" and k[1] == "eq" and ("const", DG["no_master"]) in (k[2], k[3]):
                 other = k[3] if k[2] == ("const", DG["no_master"]) else k[2]
